@@ -147,8 +147,8 @@ def run_group(group, paths, tier):
         res["build_failed"] = True
         res["tail"] = out[-3000:]
         return res
-    stats = {c["harness_id"]: c.get("cbmc_stats", {}) for c in data.get("cbmc", [])}
-    props = {p["harness_id"]: p.get("property_details", {}) for p in data.get("property_details", [])}
+    stats = {c["harness_id"]: (c.get("cbmc_stats") or {}) for c in data.get("cbmc", [])}
+    props = {p["harness_id"]: (p.get("property_details") or {}) for p in data.get("property_details", [])}
     errs = {e["harness_id"]: e for e in data.get("error_details", [])}
     # per-harness text blocks of the log (for OOM / timeout classification)
     for r in data.get("verification_results", {}).get("results", []):
@@ -171,8 +171,8 @@ def run_group(group, paths, tier):
             "covers_satisfied": pd.get("satisfied", 0),
             "covers_unsat": pd.get("unsatisfiable", 0),
             "cover_details": [{"description": c.get("description"), "status": c.get("status")} for c in covers],
-            "solver_s": stats.get(hid, {}).get("runtime_solver_s"),
-            "symex_s": stats.get(hid, {}).get("runtime_symex_s"),
+            "solver_s": (stats.get(hid) or {}).get("runtime_solver_s"),
+            "symex_s": (stats.get(hid) or {}).get("runtime_symex_s"),
             "error": errs.get(hid, {}),
         }
         res["harnesses"][hid] = h
@@ -550,4 +550,13 @@ def main():
 
 
 if __name__ == "__main__":
-    sys.exit(main())
+    try:
+        rc = main()
+    except SystemExit:
+        raise
+    except BaseException as e:  # noqa: BLE001 - an internal error is never a verdict
+        import traceback
+        traceback.print_exc()
+        print("INCONCLUSIVE: internal error in the driver: %r" % (e,))
+        rc = 2
+    sys.exit(rc)
